@@ -26,6 +26,27 @@ func Simplify(n Node) bool {
 
 type simplifier struct {
 	modified bool
+
+	// quoted holds the words that sit inside double quotes or a here-document body,
+	// like the default value in "${x:-"\$y"}": there a single quote is an ordinary character.
+	quoted map[*Word]bool
+}
+
+// markQuoted records the words nested in a double-quoted context.
+// Command and process substitutions start a quoting context of their own.
+func (s *simplifier) markQuoted(n Node) {
+	Walk(n, func(n Node) bool {
+		switch n := n.(type) {
+		case *Word:
+			if s.quoted == nil {
+				s.quoted = make(map[*Word]bool)
+			}
+			s.quoted[n] = true
+		case *CmdSubst, *ProcSubst:
+			return false
+		}
+		return true
+	})
 }
 
 func (s *simplifier) visit(node Node) {
@@ -46,6 +67,12 @@ func (s *simplifier) visit(node Node) {
 		node.Slice.Offset = s.inlineSimpleParams(node.Slice.Offset)
 		node.Slice.Length = s.removeParensArithm(node.Slice.Length)
 		node.Slice.Length = s.inlineSimpleParams(node.Slice.Length)
+	case *DblQuoted:
+		s.markQuoted(node)
+	case *Redirect:
+		if node.Hdoc != nil {
+			s.markQuoted(node.Hdoc)
+		}
 	case *ArithmExp:
 		node.X = s.removeParensArithm(node.X)
 		node.X = s.inlineSimpleParams(node.X)
@@ -63,7 +90,9 @@ func (s *simplifier) visit(node Node) {
 	case *Subshell:
 		node.Stmts = s.inlineSubshell(node.Stmts)
 	case *Word:
-		node.Parts = s.simplifyWord(node.Parts)
+		if !s.quoted[node] {
+			node.Parts = s.simplifyWord(node.Parts)
+		}
 	case *TestClause:
 		node.X = s.removeParensTest(node.X)
 		node.X = s.removeNegateTest(node.X)
